@@ -451,7 +451,7 @@ def rule_p1(ctx, ops=None):
 # argument roles at the kernel boundary
 
 
-def rule_roles(ctx):
+def rule_roles(ctx, with_inverse=True):
     r = ctx.r
     r.rule("RO", "_apply_to_data passes the object's data as the left "
                  "factor and the matrix as the right factor to "
@@ -519,6 +519,8 @@ def rule_roles(ctx):
                                     "dual (covariant) data must transform "
                                     "by the inverse transpose of the matrix",
                                     instance="_apply_to_data:dual")
+    if not with_inverse:
+        return
     # inv
     g = ctx.p.get_function(PROJ, "Transformation.inv")
     r.analysed(g)
